@@ -74,7 +74,7 @@ func restResolve(pc protocol.Client, suffix string, ops []*ref.Op, query string)
 }
 
 func checkC06(c *hx.Ctx) {
-	c.Rule("random histories over the operation alphabet (forks, failing deltas, recovers, deactivates, duplicate creates, unpublished operations) with pairwise distinct coordinates; for every cut time T (each operation time, each gap, before the first, after the last) Resolve(H, versionTime=T) must equal Resolve of H restricted to time<=T, and for every canonical reference V Resolve(H, versionId=V) must equal Resolve of the prefix of H (in (time,number) order) ending at V; unknown ids and times before the first operation must fail; a slice also goes through the REST resolve handler; full resolution models including operation lists are compared; non-trivial = cut strictly inside the history")
+	c.Rule("random histories over the operation alphabet (forks, failing deltas, recovers, deactivates, duplicate creates, unpublished operations stamped inside or after the anchored time range) with pairwise distinct coordinates; a third of the histories is also queried with a random part of the operations supplied through WithAdditionalOperations; for every cut time T (each operation time, each gap, before the first, after the last) Resolve(H, versionTime=T) must equal Resolve of H restricted to time<=T, and for every canonical reference V Resolve(H, versionId=V) must equal Resolve of the prefix of H (in (time,number) order) ending at V; unknown ids and times before the first operation must fail; a slice also goes through the REST resolve handler; full resolution models including operation lists are compared; non-trivial = cut strictly inside the history")
 	nCases := c.N(400, 8000)
 	root := c.Rng("cases")
 	seeds := make([]uint64, nCases)
@@ -106,7 +106,13 @@ func checkC06(c *hx.Ctx) {
 				l = "C"
 			}
 			if k > 0 && r.Chance(1, 10) {
-				H = append(H, Place(u.Ops[l], uint64(2000+r.Intn(50)), uint64(k), "", p.GenesisTime)) // unpublished
+				// unpublished: stamped with its intake time, which may lie inside the range of the anchored operations
+				ut := uint64(2000 + r.Intn(50))
+				if r.Bool() {
+					ut = uint64(1000 + r.Intn(60))
+					c.Count("unpublished_ops_inside_the_anchored_time_range")
+				}
+				H = append(H, Place(u.Ops[l], ut, uint64(k), "", p.GenesisTime))
 				continue
 			}
 			var t, num uint64
@@ -168,6 +174,20 @@ func checkC06(c *hx.Ctx) {
 				c.Violation(fmt.Sprintf("C06 Resolve(versionTime=%d) differs from resolution of the truncated history: [%s]\n   filtered:  %s\n   truncated: %s", T, histString(H), kF, kT), replay)
 				return
 			}
+			if i%3 == 0 {
+				// the same query with part of the operations supplied through WithAdditionalOperations
+				split := make([]int, len(H))
+				for x := range split {
+					split[x] = r.Intn(3)
+				}
+				rmS, errS := SUTResolveSplit(pc, u.Suffix, H, nil, split, document.WithVersionTime(rfc3339(T)))
+				if kS, kT := rmKey(rmS, errS), rmKey(rmT, errT); kS != kT {
+					replay["split"], replay["filtered"], replay["truncated"] = split, kS, kT
+					c.Violation(fmt.Sprintf("C06 Resolve(versionTime=%d) with additional operations (split %v) differs from resolution of the truncated history: [%s]\n   filtered:  %s\n   truncated: %s", T, split, histString(H), kS, kT), replay)
+					return
+				}
+				c.Count("time_cuts_with_additional_operations")
+			}
 			if len(trunc) < len(H) && len(trunc) > 0 {
 				c.Distinct(fmt.Sprintf("T%d|%s", T, histString(H)))
 				c.Count("inner_time_cuts")
@@ -187,6 +207,19 @@ func checkC06(c *hx.Ctx) {
 				c.Violation(fmt.Sprintf("C06 Resolve(versionId=%s) differs from resolution of the history up to that operation: [%s]\n   filtered:  %s\n   truncated: %s", o.Ref, histString(H), kF, kT),
 					map[string]interface{}{"suffix": u.Suffix, "history": replayOps(H), "versionId": o.Ref, "filtered": kF, "truncated": kT})
 				return
+			}
+			if i%3 == 0 {
+				split := make([]int, len(H))
+				for x := range split {
+					split[x] = r.Intn(3)
+				}
+				rmS, errS := SUTResolveSplit(pc, u.Suffix, H, nil, split, document.WithVersionID(o.Ref))
+				if kS, kT := rmKey(rmS, errS), rmKey(rmT, errT); kS != kT {
+					c.Violation(fmt.Sprintf("C06 Resolve(versionId=%s) with additional operations (split %v) differs from resolution of the history up to that operation: [%s]\n   filtered:  %s\n   truncated: %s", o.Ref, split, histString(H), kS, kT),
+						map[string]interface{}{"suffix": u.Suffix, "history": replayOps(H), "versionId": o.Ref, "split": split, "filtered": kS, "truncated": kT})
+					return
+				}
+				c.Count("id_cuts_with_additional_operations")
 			}
 			// model cross-check
 			st, merr := ref.Resolve(H, ref.ResolveOpts{VersionID: o.Ref})
@@ -277,6 +310,9 @@ func checkC06(c *hx.Ctx) {
 		}
 	})
 	c.Floor("inner_time_cuts", 200)
+	c.Floor("time_cuts_with_additional_operations", 200)
+	c.Floor("id_cuts_with_additional_operations", 100)
+	c.Floor("unpublished_ops_inside_the_anchored_time_range", 20)
 	c.Floor("inner_id_cuts", 200)
 	c.Floor("time_before_first_rejected", 50)
 	c.Floor("rest_comparisons", 10)
